@@ -83,7 +83,7 @@ impl Prop for C16 {
     const RULE: &'static str = "case = trace (1..=40 lines) x delay x 0..=3 machines per side biased to BlockOutgoing (all four bypass/replace combinations) and SendPadding, light distributions (timeouts from 0; durations from 1 us in profile 'blocking', from 0 in profile 'zero') x fractions x seed, iteration-bounded, unfiltered. Non-trivial: a blocking period that held a queued packet (TunnelSent released at the BlockingEnd instant) or that a second action updated. Distinct = hash of the case.";
     fn profiles(tier: Tier) -> Vec<Profile> {
         match tier {
-            Tier::Quick => vec![prof("blocking", 12_000), prof("zero", 6_000)],
+            Tier::Quick => vec![prof("blocking", 36_000), prof("zero", 18_000)],
             Tier::Thorough => vec![prof("blocking", 450_000), prof("zero", 200_000)],
         }
     }
@@ -131,7 +131,7 @@ impl Prop for C17 {
     const RULE: &'static str = "case = trace x delay x 0..=3 machines per side biased to SendPadding/BlockOutgoing with timeouts from 0 upwards, re-issued before they fire, and Cancel actions of each timer kind x fractions x seed, iteration-bounded, unfiltered. Non-trivial: a run in which an action was superseded or cancelled before firing and another one fired. Distinct = hash of the case.";
     fn profiles(tier: Tier) -> Vec<Profile> {
         match tier {
-            Tier::Quick => vec![prof("actions", 12_000), prof("zero", 6_000)],
+            Tier::Quick => vec![prof("actions", 36_000), prof("zero", 18_000)],
             Tier::Thorough => vec![prof("actions", 450_000), prof("zero", 200_000)],
         }
     }
@@ -169,7 +169,7 @@ impl Prop for C18 {
     const RULE: &'static str = "case = trace x delay x 0..=3 machines per side biased to UpdateTimer (both replace settings, durations from 1 us in profile 'timers', from 0 in profile 'zero') and Cancel x fractions x seed, iteration-bounded, unfiltered. Non-trivial: a run with a non-replace update that did not change the timer, one that did, and a TimerEnd. Distinct = hash of the case.";
     fn profiles(tier: Tier) -> Vec<Profile> {
         match tier {
-            Tier::Quick => vec![prof("timers", 12_000), prof("zero", 6_000)],
+            Tier::Quick => vec![prof("timers", 36_000), prof("zero", 18_000)],
             Tier::Thorough => vec![prof("timers", 450_000), prof("zero", 200_000)],
         }
     }
